@@ -1,5 +1,6 @@
 import GitSizer.Driver.Graph
 import GitSizer.Spec.RevParse
+import GitSizer.Proofs.PathRes.Ops
 /-! Engine `paths`: the real `InOrderPathResolver` driven with operation sequences consistent
     with a generated repository, against `Model/PathResolver`; every printed description is
     judged by `Spec.resolve` (must denote exactly the cited object). -/
@@ -84,6 +85,14 @@ def stepP (run : Res PRun) (op : POp) : Res PRun := do
     let st ← recordCommit r.st c t
     pure { r with st := st }
 
+/-- the operation as the theorem `descriptions_resolve` sees it (a forget needs no hypothesis) -/
+def POp.toSpec : POp → Spec.Op
+  | .req o ty => .request o ty
+  | .forget h => .forget h
+  | .name nm o => .name nm o
+  | .entry t nm c => .entry t nm c
+  | .commit c t => .commit c t
+
 def atomOf (atoms : List (Bytes × Nat)) (s : Bytes) : Option Nat :=
   match atoms.find? (·.1 == s) with
   | some kv => some kv.2
@@ -137,7 +146,11 @@ def pathsEngine : Engine := fun inp obs =>
         match bad with
         | w :: _ => .viol "C08" w
         | [] =>
-          if modelS == resS then (if obsL.any (fun kv => kv.length > 50) then .ok else .ok "trivial")
+          if modelS == resS then
+            (if obsL.any (fun kv => kv.length > 50) then
+              -- `thm`: every operation meets the hypothesis `OpOK` of `C08.descriptions_resolve` (decided here)
+              .ok (if ops.all (fun op => decide (OpOK ⟨repo, atom, hexOid⟩ op.toSpec)) then "thm" else "")
+             else .ok "trivial")
           else .diff modelS "descriptions differ between model and implementation"
     | _, _, _, _ => .bad "undecodable input"
   | _, _ => .bad "arity"
